@@ -865,6 +865,10 @@ func (o *orbitDB) monitorDirectChannel(ctx context.Context, bus event.Bus) error
 	}
 
 	go func() {
+		// the bus may be the caller's own and outlive the instance: a subscription
+		// nobody reads any more blocks whoever emits on it once its buffer is full
+		defer sub.Close()
+
 		for {
 			var e interface{}
 			select {
